@@ -539,3 +539,58 @@ def _(v):
     v.prove("names", list(odesys.names) == ["C", "A", "B"] and list(odesys.param_names) == [])
     for e, want, s in zip(odesys.exprs, (r2 - r1, -r2 + 2 * r1, -r2), "CAB"):
         v.prove_identity("rhs_" + s, e, want)
+
+
+@harness("C04", "_create_odesys.names_are_substance_keys", functions=[ODE + ":_create_odesys"], kind="shape-bounded", samples=0, max_paths=300)
+def _(v):
+    """the alternative builder as well: dependent-variable names are the substance KEYS (keys that differ from the Substance.name attributes)"""
+    import z3
+    from chempy.kinetics.ode import _create_odesys
+    from chempy.chemistry import Reaction, Substance
+    from chempy.reactionsystem import ReactionSystem
+    subs = OrderedDict([("NO2", Substance("nitrogen dioxide")), ("N2O4", Substance("dinitrogen tetroxide"))])
+    n = v.int("nu", lo=1, hi=3)
+    rsys = ReactionSystem([Reaction({"NO2": n}, {"N2O4": 1}, "k", checks=())], subs, checks=())
+    psyms = OrderedDict([("k", Sym(z3.Real("P_k")))])
+    ssyms = OrderedDict((k, Sym(z3.Real("Y_" + k))) for k in subs)
+    t = Sym(z3.Real("T_time"))
+    v.assume(t != 0)
+    for other in list(ssyms.values()) + list(psyms.values()):
+        v.assume(other != t)
+    o, x = v.call(_create_odesys, rsys, substance_symbols=ssyms, parameter_symbols=psyms, backend=FakeBackend(), SymbolicSys=CapturingSys, time_symbol=t)
+    v.prove("names_are_the_keys", list(o.names) == ["NO2", "N2O4"])
+    r = psyms["k"] * SP.spow(ssyms["NO2"], n)
+    v.prove("rhs", SP.conj([v.eq(o.exprs[0], -n * r), v.eq(o.exprs[1], r)]))
+
+
+@harness("C04", "get_odesys.nested_unique_keys", functions=[ODE + ":get_odesys", ODE + ":get_odesys.<locals>._reg_unique"], kind="shape-bounded", div_mode="assume", samples=0, max_paths=400)
+def _(v):
+    """'keeping rate constants as free parameters': EVERY unique key of a rate expression becomes a parameter, also the key of an expression nested
+    inside another one that has a key of its own; binding them reproduces the inlined right-hand side"""
+    from chempy.kinetics.ode import get_odesys
+    from chempy.kinetics.rates import MassAction, Arrhenius
+    from chempy.util._expr import Expr
+    from chempy.chemistry import Reaction, Substance
+    from chempy.reactionsystem import ReactionSystem
+    from pyvc.stubs import sym_exp
+
+    class Scaled(Expr):
+        """a*2: stands for any user-defined inner expression (e.g. an activation energy over R computed from something else)"""
+        argument_names = ("a",)
+
+        def __call__(self, variables, backend=None, **kwargs):
+            (a,) = self.all_args(variables, backend=backend, **kwargs)
+            return a * 2
+    A0, E = v.real("A0", lo=0.1, hi=9), v.real("E", lo=1, hi=900)
+    T = v.real("T", lo=250, hi=350)
+    rsys = ReactionSystem([Reaction({"A": 1}, {"B": 1}, MassAction(Arrhenius([A0, Scaled([E], unique_keys=("E_inner",))], unique_keys=("A_outer",))), checks=())],
+                          [Substance("A"), Substance("B")], checks=())
+    o, x = v.call(get_odesys, rsys, include_params=False, SymbolicSys=ExpSys)
+    v.prove("both_keys_are_parameters", set(o.param_names) == {"temperature", "A_outer", "E_inner"} and len(o.param_names) == 3, detail=repr(o.param_names))
+    if set(o.param_names) == {"temperature", "A_outer", "E_inner"}:
+        p = dict(zip(o.param_names, o.params))
+        y = dict(zip(o.names, o.dep))
+        v.assume(p["temperature"] > 1)
+        k = p["A_outer"] * sym_exp(-(p["E_inner"] * 2) / p["temperature"])
+        v.prove("rhs_in_the_free_symbols", SP.conj([v.eq(o.exprs[0], -k * y["A"]), v.eq(o.exprs[1], k * y["A"])]))
+        v.prove("registered_values", SP.conj([x["unique"]["A_outer"] == A0, x["unique"]["E_inner"] == E]))
